@@ -410,6 +410,27 @@ func (x *Exec) zzverifEnv(name string, c *CallCtx) (Value, bool) {
 	case "OrmBegin":
 		e.snapshot = e.checkpoint()
 		return nil, true
+	case "EffectsSnapshot":
+		x.effectsSnapshot()
+		return nil, true
+	case "SameEffects":
+		return BoolV{x.sameEffects()}, true
+	case "ProcessState":
+		x.markProcessState(unwrapIface(a[0]), 0)
+		return nil, true
+	case "HiddenWrites":
+		return IntV{B.Int(int64(x.countEffects("hidden-write")))}, true
+	case "WallClockReads":
+		return IntV{B.Int(int64(x.countEffects("wallclock", "nondeterminism")))}, true
+	case "MapRanges":
+		return IntV{B.Int(int64(x.countEffects("map-range")))}, true
+	case "HiddenWriteName":
+		for _, ef := range x.Effects {
+			if ef.Kind == "hidden-write" {
+				return StrV{IsConst: true, S: ef.Name}, true
+			}
+		}
+		return StrV{IsConst: true}, true
 	case "OrmRollbackIf":
 		if x.BranchBool(a[0]) {
 			if e.snapshot == nil {
